@@ -67,6 +67,25 @@ def check(P, acc, case, depth=0):
         return
     acc.n("transitions", 4)
     acc.obs(tb.tolist(), rb.tolist(), cb.tolist(), nrc.tolist())
+    if depth == 0:
+        # the same four queries in the opposite order on a second, identical object: the answers may not depend on what was asked before
+        try:
+            variables = [puan.variable(v.id, tuple(int(x) for x in v.bounds.as_tuple())) for v in P.variables]
+            Q = pnd.ge_polyhedron(M.copy(), variables=variables, index=list(P.index))
+            nrc2 = np.asarray(Q.n_row_combinations)
+            cb2 = np.asarray(Q.column_bounds())
+            rb2 = np.asarray(Q.row_bounds())
+            tb2 = np.asarray(Q.tighten_column_bounds())
+            rb3 = np.asarray(P.row_bounds())          # and once more on the first object, after tighten_column_bounds
+        except BaseException as e:
+            acc.violation(None, case, dict(desc, what="bounds API raised in the reverse-order pass", exc=repr(e)))
+            return
+        acc.n("transitions", 5)
+        if nrc2.tolist() != nrc.tolist() or cb2.tolist() != cb.tolist() or rb2.tolist() != rb.tolist() or tb2.tolist() != tb.tolist() or rb3.tolist() != rb.tolist():
+            acc.violation(None, case, dict(desc, what="the bounds queries answer differently when asked in another order / a second time (history)",
+                                           first=[tb.tolist(), rb.tolist(), cb.tolist(), nrc.tolist()], reverse=[tb2.tolist(), rb2.tolist(), cb2.tolist(), nrc2.tolist()],
+                                           row_bounds_again=rb3.tolist()))
+            return
     decl = np.array(bds, dtype=np.int64).T if bds else np.zeros((2, 0), dtype=np.int64)
     if cb.shape != decl.shape or (cb != decl).any():
         acc.violation(None, case, dict(desc, what="column_bounds differ from the declared variable bounds", got=cb.tolist()))
